@@ -174,7 +174,7 @@ pub fn generate(seed: u64, w: &World, with_big: bool, with_stalls: bool) -> Valu
     } else {
         json!(*rng.pick(&["absent", "text", "old-schema", "long-text", "text", "stale-same-data", "not-utf8", "symlink", "empty"]))
     };
-    let path = *rng.pick(&["/graphql", "/", "/api/v1/graphql?x=1&y=two", "/graphql/", "/v1/graphql;v=1", "/~user/gql", "/with%20space/graphql", "/graphql?query=%7B%7D&a=b,c"]);
+    let path = *rng.pick(&["/graphql", "/", "/api/v1/graphql?x=1&y=two", "/graphql/", "/v1/graphql;v=1", "/~user/gql", "/with%20space/graphql", "/graphql?query=%7B%7D&a=b,c", "", "/graphql#section", "/a/./b/../graphql", "//graphql", "/GraphQL", "/graphql?x=1#frag"]);
     let usable: Vec<&Fixture> = w.fixtures.iter().filter(|f| !f.big || (with_big && seed % 8 == 0) || seed % 64 == 0).collect();
     let fx = *rng.pick(&usable);
     // what the endpoint has to say
@@ -604,4 +604,42 @@ pub fn success_expected(m: &Meaning) -> bool {
         Meaning::Complete { status, body } => (200..300).contains(status) && serde_json::from_slice::<Value>(body).is_ok(),
         _ => false,
     }
+}
+
+/// The request target a URL with this path part must produce (RFC 3986: the fragment is not sent,
+/// an empty path becomes "/", dot segments are removed; everything else is kept as written).
+pub fn expected_target(path: &str) -> String {
+    let no_frag = path.split('#').next().unwrap_or("");
+    let (p, q) = match no_frag.find('?') {
+        Some(i) => (&no_frag[..i], Some(&no_frag[i..])),
+        None => (no_frag, None),
+    };
+    let mut out: Vec<&str> = vec![];
+    let segs: Vec<&str> = p.split('/').collect();
+    for (i, seg) in segs.iter().enumerate().skip(1) {
+        let last = i + 1 == segs.len();
+        match *seg {
+            "." => {
+                if last {
+                    out.push("");
+                }
+            }
+            ".." => {
+                out.pop();
+                if last {
+                    out.push("");
+                }
+            }
+            x => out.push(x),
+        }
+    }
+    let mut t = String::new();
+    for seg in &out {
+        t.push('/');
+        t.push_str(seg);
+    }
+    if t.is_empty() {
+        t.push('/');
+    }
+    t + q.unwrap_or("")
 }
